@@ -140,7 +140,8 @@ let handle (x : sexp) : (string * string) list =
     let flags = find "flags" items and sum = find "sum" items in
     let flag name = (match find name flags with [b] -> sbool b | _ -> raise (Sexp_error name)) in
     let show_paths ps = String.concat " " (List.map (fun p -> String.concat "." (List.map (function PName k -> string_of_bytes k | PIdx i -> string_of_int (int_of_n i)) p)) ps) in
-    let hidden = (match find_opt "hidden" items with Some (_ :: _ as l) -> "/hidden-input[" ^ String.concat "," (List.map str l) ^ "]" | _ -> "") in
+    (* planned fetches that the gate holds back under these decisions although other fetches depend on them *)
+    let hidden = (match find_opt "starving" items with Some (_ :: _ as l) -> "/input-fetch-held-back[" ^ String.concat "," (List.map atom l) ^ "]" | _ -> "") in
     (* 1 denied_absent *)
     if not (denied_absent_b gw denied) then begin
       let bad = List.filter (fun p -> not (denied_absent_b gw [p])) denied in
